@@ -232,6 +232,17 @@ def check(ctx):
             ctx.require(R5, got is not None and got[0] == "Err", "%s:%s" % (hb_.file, hb_.line),
                         "%s (evaluated on the sample configuration: %s)" % ("an unknown hook name is an error" if nm == "zz" else "an unresolved name inside a group fails the whole lookup", got),
                         [CFG + "::do_get_hook", "not-found-error" if nm == "zz" else "nested-error-dropped"])
+    from .hook_table import consumer_table
+    for key in ("acmed::config::Certificate::get_hooks", "acmed::config::Account::get_hooks"):
+        ct_ = consumer_table(prog, key)
+        if ct_ is None:
+            continue
+        kb = prog.must_body(key)
+        for names, got, want in ct_:
+            if want != "Err":
+                continue
+            ctx.require(R5, got == "Err", "%s:%s" % (kb.file, kb.line), "%s with hooks = %s is an error (an unresolved hook / group reference is not dropped): %s" % (key.rsplit("::", 2)[-2] + "::get_hooks", names, got),
+                        [key, "unresolved-reference", repr(names)])
     for key, what in ((C + "::do_get_endpoint", "unknown endpoint"), (CFG + "::get_rate_limit", "unknown rate limit"), (RES, "unknown hook or group")):
         b = prog.must_body(key)
         if hook_eval and key == RES:
